@@ -1,6 +1,7 @@
 import IceProofs.Rewrite
 import IceProofs.RewriteValid
 import IceTie.Rewrite
+import IceTie.Rewrite2
 /-!
 # C19 — address rewrite rules map addresses as documented
 
@@ -331,5 +332,81 @@ theorem C19_validation_option_witness :
 
 example : (newMapper [{ ctype := 1, mode := 1, iface := "", cidr := .none, loc := .ok ⟨true, 167772165⟩, nets := [], ext := [] }]).toOption.isSome = true := by
   rfl
+
+/-! ## more of external_ip_mapper.go REGENERATED and proved equal to the model (`IceTie/Rewrite2.lean`, `IceTie/Rewrite.lean`) -/
+
+/-- `ruleMappingForLookup` ∘ `mappingForFamily`: a rule takes part in a lookup iff the model's `ruleMappingForLookup` returns a
+mapping — interface scope, CIDR, validity of the mapping of the local address's family — and that mapping is the one returned -/
+theorem C19_code_lookup_gate (r : CRule) (ip : IP) (iface : String) :
+    IceGen.ruleMappingForLookup r.iface iface r.cidr.isSome (IceTie.Rewrite2.cidrContains r.cidr ip)
+        (if IceGen.ruleMapping_mappingForFamily ip.v4 then r.m4 else r.m6).valid
+      = ((ruleMappingForLookup r ip iface).isSome, (ruleMappingForLookup r ip iface).isSome) ∧
+    (∀ fm, ruleMappingForLookup r ip iface = some fm →
+      fm = if IceGen.ruleMapping_mappingForFamily ip.v4 then r.m4 else r.m6) :=
+  IceTie.Rewrite2.ruleMappingForLookup_tie r ip iface
+
+/-- `shouldReplace` and `hasCandidateType` (the loops over the rules stored for a candidate type), the latter composed with the
+regenerated `hasMappings`, are the model's, for every mapper and candidate type -/
+theorem C19_code_replace_and_has (m : Mapper) (ct : Nat) (h : ∀ r ∈ rulesFor m ct, r.mode < 2 ^ 63) :
+    IceGen.mapper_shouldReplace ((rulesFor m ct).map (fun r => Int64.ofNat r.mode)) = shouldReplace m ct ∧
+    IceGen.mapper_hasCandidateType ((rulesFor m ct).map (fun r => IceGen.ruleMapping_hasMappings r.m4.valid r.m6.valid))
+      = hasCandidateType m ct :=
+  ⟨IceTie.Rewrite2.shouldReplace_tie m ct h, IceTie.Rewrite2.hasCandidateType_tie m ct⟩
+
+/-- one iteration of the loop of `addExternalMappings`: the family an external address is filed under is `Local`'s, else the
+CIDR's, else its own (`targetFam` for a rule without `Local`), and it is filed in the catch-all list of family `fam` iff
+`soleFor`'s predicate holds (target = `fam` and `fam` allowed by the rule's networks) -/
+theorem C19_code_external_family (a4 a6 : Bool) (cidr : Option CIDR) (e : IP) (fam : Bool) :
+    IceTie.Rewrite2.target false false cidr.isSome ((cidr.map (·.v4)).getD false) e.v4 = targetFam cidr e ∧
+    ((IceGen.addExternalMappings_iter false false e.v4 false false cidr.isSome ((cidr.map (·.v4)).getD false) a4 a6).1.contains
+        (IceModel.Eff.call "addImplicitMapping" [IceModel.Val.b fam, IceModel.Val.b false])
+      = ((targetFam cidr e == fam) && isFamilyAllowed a4 a6 fam)) ∧
+    (∀ hasSlash parseErr isExt hasLocal localV4 hasCIDR cidrV4,
+      IceGen.addExternalMappings_iter hasSlash parseErr isExt hasLocal localV4 hasCIDR cidrV4 a4 a6
+        = if hasSlash then ([IceTie.Rewrite2.eFor], (false, "ErrInvalidNAT1To1IPMapping"))
+          else if parseErr then ([IceTie.Rewrite2.eFor], (false, "err"))
+          else if isFamilyAllowed a4 a6 (IceTie.Rewrite2.target hasLocal localV4 hasCIDR cidrV4 isExt) then
+            ([IceTie.Rewrite2.eFor, IceModel.Eff.call "addImplicitMapping"
+                [IceModel.Val.b (IceTie.Rewrite2.target hasLocal localV4 hasCIDR cidrV4 isExt), IceModel.Val.b hasLocal],
+              IceTie.Rewrite2.eEnd], (true, "nil"))
+          else ([IceTie.Rewrite2.eFor, IceTie.Rewrite2.eEnd], (false, "nil"))) :=
+  ⟨(IceTie.Rewrite2.addExternalMappings_iter_model a4 a6 cidr e fam).1,
+   (IceTie.Rewrite2.addExternalMappings_iter_model a4 a6 cidr e fam).2,
+   fun hs pe ie hl lv hc cv => IceTie.Rewrite2.addExternalMappings_iter_tie hs pe ie hl lv hc cv a4 a6⟩
+
+/-- `maybeMarkEmptyMapping`: a rule without `Local` to which no external address was added ends with the model's `catchAllMap`
+(every allowed family a valid, empty catch-all); a rule pinned by `Local` gets its empty entry iff `pinMap` is valid -/
+theorem C19_code_empty_mapping (a4 a6 : Bool) (cidr : Option CIDR) (exts : List IP) (l : IP)
+    (h4 : (soleFor a4 a6 cidr exts true).isEmpty = true) (h6 : (soleFor a4 a6 cidr exts false).isEmpty = true) :
+    IceTie.Rewrite2.applyMark (IceGen.maybeMarkEmptyMapping false false false a4 a6) ({}, {})
+      = (catchAllMap a4 a6 cidr exts true, catchAllMap a4 a6 cidr exts false) ∧
+    ((IceGen.maybeMarkEmptyMapping false true l.v4 a4 a6 ≠ []) ↔ (pinMap a4 a6 l [] l.v4).valid = true) ∧
+    (∀ hasLocal localV4, IceGen.maybeMarkEmptyMapping true hasLocal localV4 a4 a6 = []) :=
+  ⟨IceTie.Rewrite2.maybeMarkEmptyMapping_model a4 a6 cidr exts h4 h6, IceTie.Rewrite2.maybeMarkEmptyMapping_pin a4 a6 l,
+   fun hl lv => by rw [IceTie.Rewrite2.maybeMarkEmptyMapping_tie]; rfl⟩
+
+/-- the small pieces translated earlier, as obligations of this check: mode defaulting, family permission, the network-type
+predicates (for every `NetworkType` code, negative ones included) -/
+theorem C19_code_defaults :
+    (∀ ct : UInt8, IceGen.defaultAddressRewriteMode ct = Int64.ofNat (defaultMode ct.toNat)) ∧
+    (∀ a4 a6 isV4, IceGen.ruleMapping_isFamilyAllowed a4 a6 isV4 = isFamilyAllowed a4 a6 isV4) ∧
+    (∀ n, n < 2 ^ 63 → IceGen.networkType_IsIPv4 (Int64.ofNat n) = netIsV4 n ∧ IceGen.networkType_IsIPv6 (Int64.ofNat n) = netIsV6 n) ∧
+    (∀ t : Int64, t.toInt < 0 → IceGen.networkType_IsIPv4 t = false ∧ IceGen.networkType_IsIPv6 t = false) :=
+  ⟨IceTie.Rewrite.defaultMode_tie, IceTie.Rewrite.isFamilyAllowed_tie,
+   fun n h => ⟨IceTie.Rewrite.netIsV4_tie n h, IceTie.Rewrite.netIsV6_tie n h⟩, IceTie.Rewrite.netIs_neg⟩
+
+/-- non-vacuity -/
+example : IceGen.ruleMappingForLookup "eth0" "eth1" false false true = (false, false) ∧
+    IceGen.ruleMappingForLookup "" "eth1" true false true = (false, false) ∧
+    IceGen.ruleMappingForLookup "eth1" "eth1" true true true = (true, true) ∧
+    IceGen.mapper_shouldReplace [2, 1] = true ∧ IceGen.mapper_shouldReplace [2, 2] = false ∧
+    IceGen.mapper_hasCandidateType [false, false] = false := by decide
+example : (soleFor true true none [] true).isEmpty = true ∧ (catchAllMap true false none [] true).valid = true ∧
+    (catchAllMap true false none [] false).valid = false := by decide
+example : (IceGen.addExternalMappings_iter false false false false false true true true false).1
+      = [IceModel.Eff.call "for:externals" [], IceModel.Eff.call "addImplicitMapping" [IceModel.Val.b true, IceModel.Val.b false],
+         IceModel.Eff.call "end:externals" []] ∧
+    (IceGen.addExternalMappings_iter false false false false false false false true false).1
+      = [IceModel.Eff.call "for:externals" [], IceModel.Eff.call "end:externals" []] := by decide
 
 end IceProps.C19
